@@ -48,7 +48,13 @@ func HarnessC12a() {
 	size0, height0 := t.Size(), t.Height()
 
 	k, v := verifNondetKey("k"), verifNondetVal("v")
-	op := verifChoose("op", 7)
+	var opsel []int // OPMASK: which of the 7 operations are tried (default all)
+	for o := 0; o < 7; o++ {
+		if verifBoundOr("OPMASK", 127)&(1<<uint(o)) != 0 {
+			opsel = append(opsel, o)
+		}
+	}
+	op := opsel[verifChoose("op", len(opsel))]
 	var other *Mast
 	if op == 6 {
 		// diff partner: an in-memory tree with one entry
@@ -115,13 +121,15 @@ func HarnessC12a() {
 			verifClass("C12.insert-split-fails-after-target-mutated", verifAnd(op == 0, injected))
 			verifAssert("C12.contents-unchanged", seqMatches(ks, vs, md))
 		}
-		var out uint64
-		found, gerr := t.Get(vctx, probe, &out)
-		ef, ev := md.lookup(probe.id)
-		verifAssert("C12.get-after-error.err", gerr == nil)
-		verifClass("C12.delete-shrink-load-fails-after-removal", verifAnd(op == 1, verifErrHas(ferr, "shrink: ")))
-		verifClass("C12.insert-split-fails-after-target-mutated", verifAnd(op == 0, injected))
-		verifAssert("C12.get-after-error", verifAnd(found == ef, verifOr(!ef, out == ev)))
+		if verifBoundOr("NOPROBE", 0) == 0 {
+			var out uint64
+			found, gerr := t.Get(vctx, probe, &out)
+			ef, ev := md.lookup(probe.id)
+			verifAssert("C12.get-after-error.err", gerr == nil)
+			verifClass("C12.delete-shrink-load-fails-after-removal", verifAnd(op == 1, verifErrHas(ferr, "shrink: ")))
+			verifClass("C12.insert-split-fails-after-target-mutated", verifAnd(op == 0, injected))
+			verifAssert("C12.get-after-error", verifAnd(found == ef, verifOr(!ef, out == ev)))
+		}
 		if !injected {
 			return // a genuine precondition failure (delete of an absent entry): nothing to retry
 		}
@@ -141,6 +149,13 @@ func HarnessC12a() {
 			if op == 0 {
 				md.put(k, v)
 			}
+		}
+		// C09 under faults: a version persisted after a failed (and retried) operation still records
+		// the number of entries reachable from it
+		if pr, perr := t.MakeRoot(vctx); perr == nil {
+			rep := checkShape(st, pr)
+			verifClass("C12.delete-shrink-load-fails-after-removal", verifAnd(op == 1, verifErrHas(ferr, "shrink: ")))
+			verifAssert("C09.size-after-failed-operation", verifAnd(rep.complete, pr.Size == rep.entries))
 		}
 		ks, vs, ierr = iterAll(t)
 		verifAssert("C12.iter-after-retry.err", ierr == nil)
